@@ -1,6 +1,8 @@
 import PsiProofs.Helper.C12_Stages3
 import PsiProofs.Helper.C12_Rate
 import PsiProofs.Helper.C12_Restart
+import PsiProofs.Helper.C12_Annot
+import PsiProofs.Helper.C12_Concat
 /-!
 # C12 — streaming stages are chunk-invariant and keep a contiguous time base
 
@@ -441,6 +443,96 @@ theorem AllPairs.spelled_out {A B : Type} {R : A → B → Prop} {l : List A} {l
     l.length = l'.length ∧ ∀ (i : Nat) (h1 : i < l.length) (h2 : i < l'.length), R l[i] l'[i] :=
   ⟨h.length_eq, h.getElem⟩
 
+/-! ## annotation bookkeeping at full strength: `rms`, `auto_th`, and the full `concat` of C11 -/
+
+/-- `rms(n)` with the **true** first-sample index `s0 / n` of every block (`result.s0 /= n`; the model's field is the
+numerator).  For a stream starting at a multiple `n·k` of the block length — any `k ∈ ℤ` — and every chunking:
+every division is exact (`b.s0 = n · (b.s0 / n)`), the first emitted block starts at output sample `k = s0 / n`, every
+block starts where the previous one ended **counted in output samples**, carries the rate `fs / n` and the input's
+channel labels and metadata, and the values are the block function of the consecutive complete `n`-blocks. -/
+theorem rms_annotations_output_samples (blockFn : List α → β) (divFs : ρ → Nat → ρ) (n : Nat) (hn : 0 < n)
+    (ann : Ann ρ χ μ) (k : Int) (cs : List (List α)) :
+    ∃ bs, outputs (runStage (rmsStep blockFn divFs n) {} (stream ann ((n : Int) * k) cs)) = .ok bs
+      ∧ (∀ b ∈ bs, b.s0 = (n : Int) * (b.s0 / (n : Int)))
+      ∧ Emits (bs.map (PD.divS0 n)) ((blocksOf n cs.flatten).map blockFn) 1 k { ann with fs := divFs ann.fs n } := by
+  obtain ⟨bs, h1, h2⟩ := rms_chunk_invariant blockFn divFs n hn ann ((n : Int) * k) cs
+  obtain ⟨h3, h4⟩ := h2.divS0 hn
+  exact ⟨bs, h1, h4, h3⟩
+
+/-- `rms(n)` for **any** first sample `s` (not a multiple of `n`): the true first-sample indices `s0 / n ∈ ℚ` of the
+emitted blocks are contiguous in output samples from `s / n` (exact rational arithmetic; the code computes them in
+floating point) -/
+theorem rms_true_s0_contiguous (blockFn : List α → β) (divFs : ρ → Nat → ρ) (n : Nat) (hn : 0 < n)
+    (ann : Ann ρ χ μ) (s : Int) (cs : List (List α)) :
+    ∃ bs, outputs (runStage (rmsStep blockFn divFs n) {} (stream ann s cs)) = .ok bs
+      ∧ RContig ((s : Rat) / n) (bs.map fun b => ((b.s0 : Rat) / n, b.len)) := by
+  obtain ⟨bs, h1, h2⟩ := rms_chunk_invariant blockFn divFs n hn ann s cs
+  exact ⟨bs, h1, Contig.rat n hn bs s h2.contig⟩
+
+/-- `auto_th` with the metadata dict as a key/value map (`metadata['auto_th'] = th` is `setKey key th`): for every
+chunking, the emitted blocks are contiguous from the stream's first sample (the first block carries everything
+accumulated for the baseline), every block keeps the rate and the channel labels, its metadata maps `key` to the
+threshold of the first `bl` samples of the whole stream and agrees with the input metadata on **every other key** -/
+theorem auto_th_annotations {κ ν : Type} [DecidableEq κ] (key : κ) (thr : List α → ν) (cmp : ν → α → β) (bl : Nat)
+    (ann : Ann ρ χ (κ → Option ν)) (s : Int) (cs : List (List α)) :
+    ∃ bs, outputs (runStage (autoThStep thr cmp (setKey key) bl) .first (stream ann s cs)) = .ok bs
+      ∧ outData bs = autoSpec thr cmp bl cs.flatten ∧ Contig 1 s bs
+      ∧ ∀ b ∈ bs, b.ann.fs = ann.fs ∧ b.ann.channel = ann.channel
+          ∧ b.ann.metadata key = some (thr (cs.flatten.take bl))
+          ∧ ∀ k, k ≠ key → b.ann.metadata k = ann.metadata k := by
+  obtain ⟨bs, h1, h2⟩ := auto_th_chunk_invariant thr cmp (setKey key) bl ann s cs
+  refine ⟨bs, h1, h2.data, h2.contig, ?_⟩
+  intro b hb
+  rw [h2.ann b hb]
+  exact ⟨rfl, rfl, setKey_same _ _ _, fun k hk => setKey_other _ _ _ k hk⟩
+
+/-- **`emitted_blocks_concatenate` against the full `concat` of C11** (`Psi.PData.concat`: `ensure_dim`, equal `ndim`,
+equal rate, contiguity of `s0`, equal channel labels, equal metadata, `np.concatenate`, the checks of
+`PipelineData.__new__`).  Whatever a stage emits (`Emits … 1 t a`) — 1-D blocks, or 2-D blocks of `c` channels with
+one label per channel — passes every check, and the result is the whole output as one array (`[N]` resp. row-major
+`[c, N]`) with `s0 = t` and the common rate, labels and metadata. -/
+theorem emitted_blocks_concatenate_full_concat :
+    (∀ (bs : List (PD Nat Rat PData.Label PData.Md)) (x : List Nat) (t : Int) (a : Ann Rat PData.Label PData.Md),
+      Emits bs x 1 t a → bs ≠ [] →
+      PData.concat (bs.map toPData1) .time = .ok (toPData1 { data := x, s0 := t, ann := a }))
+    ∧ (∀ (c : Nat) (bs : List (PD (Fin c → Nat) Rat (List PData.Label) PData.Md)) (x : List (Fin c → Nat)) (t : Int)
+        (a : Ann Rat (List PData.Label) PData.Md),
+      Emits bs x 1 t a → a.channel.length = c → bs ≠ [] →
+      PData.concat (bs.map toPData2) .time = .ok (toPData2 { data := x, s0 := t, ann := a })) :=
+  ⟨fun _ _ _ _ h hne => h.concat_ok_1d hne, fun _ _ _ _ _ h hl hne => h.concat_ok_2d hl hne⟩
+
+/-- **the two-piece `cat` used inside the stage model is the full `concat`** on the pieces of one stream: with one
+annotation record, `cat` succeeds exactly when `concat` does (second piece starts where the first ends) and yields
+the same array, otherwise both raise `ValueError`; pieces with different rate, label or metadata — which the stage
+model does not compare — are refused by `concat` (never the case inside a stream) -/
+theorem stage_cat_is_full_concat (p q : PD Nat Rat PData.Label PData.Md) :
+    (q.ann = p.ann → q.s0 = p.s0 + p.len →
+      ∃ r, cat p q = .ok r ∧ PData.concat [toPData1 p, toPData1 q] .time = .ok (toPData1 r))
+    ∧ (q.ann = p.ann → q.s0 ≠ p.s0 + p.len →
+      cat p q = .error .valueError ∧ PData.concat [toPData1 p, toPData1 q] .time = .error .valueError)
+    ∧ (q.ann ≠ p.ann → PData.concat [toPData1 p, toPData1 q] .time = .error .valueError) :=
+  ⟨fun h => (cat_is_concat_1d p q h).1, fun h => (cat_is_concat_1d p q h).2,
+   concat_rejects_other_annotations_1d p q⟩
+
+/-- end to end for `rms` (not covered by `emitted_blocks_concatenate`, whose `s0` unit is 1): the blocks `rms(n)` emits
+on a 1-D stream starting at `n·k`, with their true `s0`, are accepted by the full `concat` and give the block values of
+the whole stream at `s0 = k`, rate `fs / n` -/
+theorem rms_blocks_concatenate_full_concat (blockFn : List α → Nat) (n : Nat) (hn : 0 < n)
+    (ann : Ann Rat PData.Label PData.Md) (k : Int) (cs : List (List α)) (hlen : n ≤ cs.flatten.length) :
+    ∃ bs, outputs (runStage (rmsStep blockFn (fun (fs : Rat) (q : Nat) => fs / q) n) {} (stream ann ((n : Int) * k) cs)) = .ok bs
+      ∧ PData.concat ((bs.map (PD.divS0 n)).map toPData1) .time
+        = .ok (toPData1 { data := (blocksOf n cs.flatten).map blockFn, s0 := k, ann := { ann with fs := ann.fs / n } }) := by
+  obtain ⟨bs, h1, _, h3⟩ := rms_annotations_output_samples blockFn (fun (fs : Rat) (q : Nat) => fs / q) n hn ann k cs
+  refine ⟨bs, h1, h3.concat_ok_1d ?_⟩
+  intro hnil
+  have hd := h3.data
+  rw [hnil] at hd
+  have hc := blocksOf_count n hn cs.flatten
+  have : (List.map blockFn (blocksOf n cs.flatten)).length = 0 := by rw [← hd]; rfl
+  rw [List.length_map, hc] at this
+  have := Nat.div_pos hlen hn
+  omega
+
 /-! ## non-vacuity: concrete streams (chunks shorter than q / block, length not divisible) -/
 
 example : outputs (runStage (blockedStep 2) {} (stream (⟨(), (), ()⟩ : Ann Unit Unit Unit) 6 [[1], [], [2, 3, 4], [5]]))
@@ -522,5 +614,16 @@ example : outputs (runStage (blockedStepE 3) {} (restartInput
 example : outputs (runStage (discardStepE 2) 2 (restartInput
       (⟨⟨(), (), ()⟩, 0, [[1], [2, 3]]⟩ : Seg Nat Unit Unit Unit) [⟨⟨(), (), ()⟩, 50, [[7, 8, 9]]⟩, ⟨⟨(), (), ()⟩, 9, [[4]]⟩]))
     = .ok [.data ⟨[3], 2, ⟨(), (), ()⟩⟩, .restart, .data ⟨[9], 52, ⟨(), (), ()⟩⟩, .restart] := by rfl
+
+/-- rms(2) on a stream starting at 2·2: numerators 4, 6 ↦ true s0 2, 3 -/
+example : (outputs (runStage (rmsStep List.sum (fun (r : Nat) q => r / q) 2) {}
+      (stream (⟨1000, (), ()⟩ : Ann Nat Unit Unit) (2 * 2) [[1], [2, 3], [4, 5]]))).toOption.map (List.map (PD.divS0 2))
+    = some [⟨[3], 2, ⟨500, (), ()⟩⟩, ⟨[7], 3, ⟨500, (), ()⟩⟩] := by rfl
+
+/-- two 2-channel blocks (columns as functions) through the C11 `concat`: row-major `2 × 3` result -/
+example : PData.concat ([(⟨[fun i => 1 + 9 * i.val, fun i => 2 + 18 * i.val], 5, ⟨1000, [some "a", none], 0⟩⟩ :
+        PD (Fin 2 → Nat) Rat _ _),
+      ⟨[fun i => 3 + 27 * i.val], 7, ⟨1000, [some "a", none], 0⟩⟩].map toPData2) .time
+    = .ok ⟨[2, 3], [1, 2, 3, 10, 20, 30], 5, 1000, .many [some "a", none], .one 0⟩ := by rfl
 
 end Psi.Stages
